@@ -183,10 +183,36 @@ theorem metaLang_eq (c : Ctx) (start : Loc) :
     metaLang c start = (match findHead c start with
       | none => none
       | some head => scanHead c head) := by
-  unfold metaLang findHead scanHead findChildTag
-  dsimp only
-  generalize List.find? _ (c.tagChildren start c.isHtml) = X
-  cases X <;> rfl
+  have key : ∀ (H : Option Loc),
+      (match H with
+       | none => (none : Option NVal)
+       | some html =>
+         match (c.tagChildren html c.isHtml).find? (fun ch =>
+             match ch.elem? with
+             | some e => c.tagName e == "head".toStr && c.isHtmlTag e
+             | none => false) with
+         | none => none
+         | some head =>
+           match head.elem? with
+           | none => none
+           | some he =>
+             (head.children.findSome? fun ch =>
+               match ch.elem? with
+               | some me =>
+                 if c.tagName me == "meta".toStr && c.isHtmlTag he then metaLangScan me.attrs false none else none
+               | none => none)) =
+      (match (match H with | none => none | some html => findChildTag c html "head") with
+       | none => none
+       | some head => scanHead c head) := by
+    intro H
+    cases H with
+    | none => rfl
+    | some html =>
+      dsimp only [findChildTag]
+      generalize List.find? _ (c.tagChildren html c.isHtml) = X
+      cases X <;> rfl
+  unfold metaLang findHead findHtml
+  exact key _
 
 theorem langOf_eq (c : Ctx) (l : Loc) :
     langOf c l = (match (langWalk c (l :: c.ancestors l c.isHtml) l).1 with
